@@ -38,6 +38,8 @@ func init() {
 		"internal/bytealg.IndexByteString":      bytealgIndexByteString,
 		"internal/bytealg.IndexByte":            bytealgIndexByte,
 		"internal/bytealg.CountString":          bytealgCountString,
+		"internal/bytealg.IndexString":          bytealgIndexString,
+		"internal/bytealg.Index":                bytealgIndexString,
 		"internal/bytealg.Count":                bytealgCount,
 		"internal/bytealg.Equal":                bytealgEqual,
 		"internal/bytealg.Compare":              bytealgCompare,
@@ -299,6 +301,19 @@ func (e *Exec) countByte(bs []*term.Term, c *term.Term) *term.Term {
 		acc = e.ts.Add(acc, e.ts.Ite(e.ts.Eq(b, c), e.ts.Const(64, 1), e.ts.Const(64, 0)))
 	}
 	return acc
+}
+// bytealgIndexString: index of the first occurrence of the second operand in the first (lengths are concrete), -1 if none.
+func bytealgIndexString(e *Exec, st *State, f *Frame, fn *ssa.Function, args []Value) Value {
+	a, b := e.bytesOf(st, args[0]), e.bytesOf(st, args[1])
+	res := e.ts.Const(64, ^uint64(0))
+	for i := len(a) - len(b); i >= 0; i-- {
+		eq := e.ts.True
+		for j := range b {
+			eq = e.ts.And(eq, e.ts.Eq(a[i+j], b[j]))
+		}
+		res = e.ts.Ite(eq, e.ts.Const(64, uint64(i)), res)
+	}
+	return res
 }
 func bytealgCountString(e *Exec, st *State, f *Frame, fn *ssa.Function, args []Value) Value {
 	return e.countByte(e.bytesOf(st, args[0]), args[1].(*term.Term))
